@@ -137,6 +137,11 @@ def apply_meta(f, meta=None, name_space=None):
                 ref_params = set()
             f = refs_wrapper(f, name_space, ref_params)
 
+    elif name_space and name_space.get('_C_'):
+        # a function without meta data (SUM, AVERAGE, AND, ...) takes values,
+        # a reference returned by OFFSET or INDIRECT stands for its cells
+        f = refs_wrapper(f, name_space, set())
+
     return f, meta
 
 
